@@ -276,6 +276,28 @@ func (e *Env) evalT(s *Sexp) (string, types.Type, error) {
 			return "", nil, err
 		}
 		return vc.makeIface(SV{T: t, Typ: ty}, ty).T, nil, nil
+	case "ifaceval":
+		// (ifaceval TYPE expr): the value of Go type TYPE held by the interface value expr
+		if len(s.List) != 3 || s.List[1].IsL {
+			return "", nil, fmt.Errorf("(ifaceval TYPE expr)")
+		}
+		var ty types.Type
+		for _, b := range types.Typ {
+			if b.Name() == s.List[1].Atom {
+				ty = b
+			}
+		}
+		if ty == nil {
+			ty = vc.eng.findType(e.pkgPath(), s.List[1].Atom)
+		}
+		if ty == nil {
+			return "", nil, fmt.Errorf("(ifaceval %s ...): unknown type", s.List[1].Atom)
+		}
+		t, _, err := e.evalT(s.List[2])
+		if err != nil {
+			return "", nil, err
+		}
+		return vc.unboxTerm(t, ty), ty, nil
 	case "fresh":
 		t, _, err := e.evalT(s.List[1])
 		if err != nil {
